@@ -81,26 +81,48 @@ def _zerox_result(E, env):
     return _two_int_arrays(E, env)
 
 
-contract(
-    'bycycle.cyclepoints.zerox.find_zerox',
-    cases=[dict(
-        label='peak-first,equal-counts',
-        params={'sig': ('arr', REAL), 'peaks': ('arr', INT), 'troughs': ('arr', INT)},
-        requires=[
-            "len(peaks) == len(troughs) and len(peaks) >= 1",
-            "forall(i, 0 <= i < len(peaks), 0 <= peaks[i] and peaks[i] < troughs[i] and troughs[i] < len(sig))",
-            "forall(i, 0 <= i < len(peaks) - 1, troughs[i] < peaks[i + 1])",
-        ],
-        ensures=[
-            # one rise per trough->peak flank, one decay per peak->trough flank, each inside its flank (C03 gives the
-            # exact position; this is the part C01 needs)
-            "len(result[0]) == len(peaks) - 1 and len(result[1]) == len(troughs)",
-            "forall(i, 0 <= i < len(result[0]), troughs[i] <= result[0][i] and result[0][i] <= peaks[i + 1])",
-            "forall(i, 0 <= i < len(result[1]), peaks[i] <= result[1][i] and result[1][i] <= troughs[i])",
-        ])],
-    modifies=[],
-    result=_zerox_result,
-)
+def _fz_cases():
+    out = []
+    # (label, first kind, relation of counts, alternation requirement, rises spec, decays spec)
+    inr = "0 <= peaks[i] and peaks[i] < len(sig) and 0 <= troughs[i] and troughs[i] < len(sig)"
+    cases = [
+        ('peak-first,equal-counts', "len(peaks) == len(troughs) and len(peaks) >= 1",
+         ["forall(i, 0 <= i < len(peaks), 0 <= peaks[i] and peaks[i] < troughs[i] and troughs[i] < len(sig))",
+          "forall(i, 0 <= i < len(peaks) - 1, troughs[i] < peaks[i + 1])"],
+         ("len(peaks) - 1", "troughs[i] <= result[0][i] and result[0][i] <= peaks[i + 1]"),
+         ("len(troughs)", "peaks[i] <= result[1][i] and result[1][i] <= troughs[i]")),
+        ('peak-first,one-more-peak', "len(peaks) == len(troughs) + 1 and len(troughs) >= 1",
+         ["forall(i, 0 <= i < len(troughs), 0 <= peaks[i] and peaks[i] < troughs[i] and troughs[i] < peaks[i + 1] "
+          "and peaks[i + 1] < len(sig))"],
+         ("len(troughs)", "troughs[i] <= result[0][i] and result[0][i] <= peaks[i + 1]"),
+         ("len(troughs)", "peaks[i] <= result[1][i] and result[1][i] <= troughs[i]")),
+        ('trough-first,equal-counts', "len(peaks) == len(troughs) and len(peaks) >= 1",
+         ["forall(i, 0 <= i < len(peaks), 0 <= troughs[i] and troughs[i] < peaks[i] and peaks[i] < len(sig))",
+          "forall(i, 0 <= i < len(peaks) - 1, peaks[i] < troughs[i + 1])"],
+         ("len(peaks)", "troughs[i] <= result[0][i] and result[0][i] <= peaks[i]"),
+         ("len(troughs) - 1", "peaks[i] <= result[1][i] and result[1][i] <= troughs[i + 1]")),
+        ('trough-first,one-more-trough', "len(troughs) == len(peaks) + 1 and len(peaks) >= 1",
+         ["forall(i, 0 <= i < len(peaks), 0 <= troughs[i] and troughs[i] < peaks[i] and peaks[i] < troughs[i + 1] "
+          "and troughs[i + 1] < len(sig))"],
+         ("len(peaks)", "troughs[i] <= result[0][i] and result[0][i] <= peaks[i]"),
+         ("len(peaks)", "peaks[i] <= result[1][i] and result[1][i] <= troughs[i + 1]")),
+    ]
+    for label, counts, alt, (nr, rspec), (nd, dspec) in cases:
+        out.append(dict(
+            label=label,
+            params={'sig': ('arr', REAL), 'peaks': ('arr', INT), 'troughs': ('arr', INT)},
+            requires=[counts] + alt,
+            ensures=[
+                # C03 / C01: one rise per trough->peak flank, one decay per peak->trough flank, in temporal order, each
+                # inside its flank (the exact half-height / median position is covered by the bounded job)
+                "len(result[0]) == %s and len(result[1]) == %s" % (nr, nd),
+                "forall(i, 0 <= i < len(result[0]), %s)" % rspec,
+                "forall(i, 0 <= i < len(result[1]), %s)" % dspec,
+            ]))
+    return out
+
+
+contract('bycycle.cyclepoints.zerox.find_zerox', cases=_fz_cases(), modifies=[], result=_zerox_result)
 
 FE_KEYS = {'boundary': INT, 'filter_kwargs': 'opaque', 'pass_type': STR, 'pad': BOOL, 'first_extrema': STR}
 
@@ -142,3 +164,38 @@ def _cp_contract():
 
 
 _cp_contract()
+
+
+# ------------------------------------------------------------------------------------------------ find_zerox (C03 / C01)
+contract('bycycle.cyclepoints.zerox.find_flank_zerox', inline=True)
+
+
+def _flanks_result(E, env):
+    n = z3.Int(fresh_name('flanks.len'))
+    E.assume(n >= 0)
+    return E.new_arr(n, INT, base='flanks')
+
+
+def _ffm_cases():
+    out = []
+    for flank in ('rise', 'decay'):
+        for bias in (0, 1):
+            eff = (1 - bias) if flank == 'rise' else bias       # which end extremum closes flank idx
+            out.append(dict(
+                label='%s,idx_bias=%d' % (flank, bias),
+                params={'sig': ('arr', REAL), 'flank': ('const', flank), 'n_flanks': INT, 'extrema_start': ('arr', INT),
+                        'extrema_end': ('arr', INT), 'idx_bias': ('const', bias)},
+                requires=["n_flanks >= 0", "n_flanks <= len(extrema_start)", "n_flanks + %d <= len(extrema_end)" % eff,
+                          # every flank runs from its start extremum to a later end extremum inside the signal
+                          "forall(i, 0 <= i < n_flanks, 0 <= extrema_start[i] and extrema_start[i] < extrema_end[i + %d] "
+                          "and extrema_end[i + %d] < len(sig))" % (eff, eff)],
+                ensures=["len(result) == n_flanks",
+                         # C03 (containment part, used by C01): the midpoint of flank i lies between the two extrema of flank i
+                         "forall(i, 0 <= i < n_flanks, extrema_start[i] <= result[i] and result[i] <= extrema_end[i + %d])" % eff],
+                loops={1: dict(index='k', invariant=[
+                    "len(flanks) == n_flanks",
+                    "forall(i, 0 <= i < k, extrema_start[i] <= flanks[i] and flanks[i] <= extrema_end[i + %d])" % eff])}))
+    return out
+
+
+contract('bycycle.cyclepoints.zerox._find_flank_midpoints', cases=_ffm_cases(), modifies=[], result=_flanks_result)
